@@ -169,6 +169,18 @@ def merge_obligations(E, b, l, r, args, tool, props, known, info=None):
         E.check("merge-returns-notebook-and-list",
                 isinstance(merged, dict) and isinstance(decisions, list) and "cells" in merged)
     if c13:
+        # the diffs handed to decide_merge_with_diff by a caller must come back unchanged
+        from nbdime.diffing.notebooks import diff_notebooks
+        from nbdime.merging.generic import decide_merge_with_diff
+        from nbdime.merging.notebooks import notebook_merge_strategies
+        dl, dr = diff_notebooks(b, l), diff_notebooks(b, r)
+        sdl, sdr = snapshot(dl), snapshot(dr)
+        try:
+            decide_merge_with_diff(b, l, r, dl, dr, notebook_merge_strategies(args))
+        except Exception:  # noqa  (C03's business)
+            pass
+        E.check("decide-leaves-supplied-local-diff-unchanged", json_identical(dl, sdl))
+        E.check("decide-leaves-supplied-remote-diff-unchanged", json_identical(dr, sdr))
         E.check("merge-leaves-base-unchanged", json_identical(b, snaps[0]))
         E.check("merge-leaves-local-unchanged", json_identical(l, snaps[1]))
         E.check("merge-leaves-remote-unchanged", json_identical(r, snaps[2]))
